@@ -248,7 +248,8 @@ pub(super) fn anchor_split(
 
         let mut new_name = old_name;
         if let Some(new) = &mut new_name {
-            if used_new_names.contains(new) {
+            // a generated name can itself be taken (by a user column called `_expr_N`)
+            while used_new_names.contains(new) {
                 *new = ctx.col_name.gen();
                 ctx.column_names.insert(*old_cid, new.clone());
             }
